@@ -40,6 +40,7 @@ for _p in range(1, 21):
     _k = "C%02d" % _p
     ROUND1["R3-%s-1" % _k] = ("caught", "")
     ROUND1["R4-%s-1" % _k] = ("caught", "")
+    ROUND1["R5-%s-1" % _k] = ("caught", "")
 ROUND1.update({
  # third batch: first evaluated against the redesigned checker of DESIGN §10
  "R3-C07-1": ("missed", ""), "R3-C08-1": ("missed", ""), "R3-C09-1": ("missed", ""),
@@ -121,11 +122,18 @@ STRENGTHENED.update({
  "R2-C09-2": "the pipeline model (C08.R2 / C09.R8) gained references with a prime meridian and a shifted datum on the same side, through WGS84 in two legs",
  "R2-C20-2": "C20.R6 is decided by parsing under both map orders",
 })
+STRENGTHENED.update({
+ "R5-C02-1": "C02 model: polygons whose rings come in an unusual order — a ring away from the query point listed before the ring around it (a hole before its shell, disjoint rings, an empty first ring, a member away from the point first); rings whose box does not hold the point may be skipped, the others never",
+ "R5-C20-1": "C20.R7 model: a WKT datum name that only resembles one the reader rewrites (WGS_1972, D_WGS_1972, World_Geodetic_System_1972 …) with an explicit TOWGS84 keeps the shift written in the text",
+ "R5-C08-1": "interpreter: math.Copysign under the reference valuation; C08.R5 (cone sign) and C08.R7 (longitude round trip) now decide it as a violation",
+ "R5-C12-1": "interpreter: sort.Search, SearchFloat64s/Ints/Strings, Float64s/Ints on decided comparisons; C12.R2/R3 now decide it as a violation (the pruned branch held the nearest object)",
+ "R5-C18-1": "C18.R7 gained the extraction loop itself: extract is interpreted under one sequential schedule (goroutines run when waited for, channels as queues) with a scanner over the model documents in nine orders; the loop's own decisions — when to read again, what a pass may skip — are now evaluated, not only the per-object functions",
+ "R2-C09-1": "new C09.R10: with a single standard parallel the cone constant of every conic (the coefficient of the longitude in the polar angle of the forward easting) is, as a term, the sine of the stored parallel",
+ "R2-C08-1": "new C08.R7: for the projections whose longitude has a closed form, inverse∘forward of the longitude evaluated on the forward member's own terms must be the identity",
+})
 NOT_CAUGHT = {
  "R4-C19-1": "not reported by C19's own check (reported by C12.R4, scale invariance of the nearest-neighbour queries): C19's model network has six nodes, so the node R-tree is a single leaf and the changed pruning never runs",
- "R2-C08-1": "still missed: the scale factor is removed from the wrong term in the LCC inverse (`(RH-(y-Y0))/K0` for `RH-(y-Y0)/K0`) — a formula-level slip; nothing structural distinguishes the two expressions short of composing inverse∘forward algebraically (considered: Laurent-polynomial cancellation of X0/Y0/K0; not built)",
  "R2-C08-2": "still missed: spherical transverse Mercator takes the hemisphere from sign(y) instead of from the foot-point latitude — formula-level",
- "R2-C09-1": "still missed: one-parallel Albers takes its cone constant from sin(lat_0) (a reused local) instead of sin(lat_1) — formula-level; comparison with the bundled proj4js source was rejected as brittle (DESIGN §7)",
 }
 
 def needs_of(readme):
@@ -182,9 +190,11 @@ def main():
         r2 = [m for m in rows if m['id'].startswith('R2-')]
         r3 = [m for m in rows if m['id'].startswith('R3-')]
         r4 = [m for m in rows if m['id'].startswith('R4-')]
+        r5 = [m for m in rows if m['id'].startswith('R5-')]
         for nm, rr in (("first batch", r1), ("second batch (written after the first round of strengthening, so it measures generalisation)", r2),
                        ("third batch (one per property, first evaluated against the redesigned checker of DESIGN §10)", r3),
-                       ("fourth batch (one per property, 'not the first idea that comes to mind'; first evaluated against the checker of DESIGN §11)", r4)):
+                       ("fourth batch (one per property, 'not the first idea that comes to mind'; first evaluated against the checker of DESIGN §11)", r4),
+                       ("fifth batch (one per property, 'a well-meant improvement whose author did not think of an unusual but legal input'; first evaluated after the BN4 corrections, DESIGN §11.7)", r5)):
             a1 = sum(1 for m in rr if m['first_evaluation']['verdict'].startswith('caught'))
             a2 = sum(1 for m in rr if m['current']['verdict'] == 'caught')
             f.write(f"\n{nm}: first evaluation {a1}/{len(rr)} reported, now {a2}/{len(rr)}.\n")
@@ -212,7 +222,7 @@ def main():
             def cnt(prefix):
                 ids = [b for b in br if b.startswith(prefix)]
                 return sum(1 for b in ids if br[b].get("alarms")), len(ids)
-            f.write("\n# Independently written behaviour-preserving refactors (BN-*, BN2-*, BN3-*)\n\n"
+            f.write("\n# Independently written behaviour-preserving refactors (BN-*, BN2-*, BN3-*, BN4-*)\n\n"
                     "Sixty refactors (three per property) written the same way, with the opposite brief: change the code that implements the\n"
                     "property as a maintainer would (extract helpers, change loop idioms, rename, merge or split functions, tables for switches)\n"
                     "without changing behaviour.  Each directory holds `patch.diff` and the author's `README.agent.md`.  Any alarm on one of them is a\n"
@@ -223,7 +233,10 @@ def main():
                     "(8 of the first 15 alarmed when first run; the last 5 were first run after those corrections: 0 of 5) and BN3-* with a brief asking\n"
                     "for energetic restructuring — state types with methods, method values, table dispatch, pipelines, code moved between files\n"
                     "(11 of 20 alarmed when first run).\n"
-                    f"Now: BN-* {cnt('BN-')[0]}/{cnt('BN-')[1]}, BN2-* {cnt('BN2-')[0]}/{cnt('BN2-')[1]}, BN3-* {cnt('BN3-')[0]}/{cnt('BN3-')[1]} alarm.\n")
+                    "A fourth set, BN4-*, asked for a swap of equivalents: the same behaviour through a different mechanism (raw bytes and\n"
+                    "ByteOrder calls for binary.Read/Write, a hand-written loop for a library call, closures handed to a shared helper, atomics for a\n"
+                    "mutex-guarded flag, bit tricks for arithmetic): 10 of 20 alarmed when first run, several with a rule claiming a violation (DESIGN.md §11.7).\n"
+                    f"Now: BN-* {cnt('BN-')[0]}/{cnt('BN-')[1]}, BN2-* {cnt('BN2-')[0]}/{cnt('BN2-')[1]}, BN3-* {cnt('BN3-')[0]}/{cnt('BN3-')[1]}, BN4-* {cnt('BN4-')[0]}/{cnt('BN4-')[1]} alarm.\n")
     print(len(rows), "meta files written")
 
 if __name__ == "__main__":
